@@ -622,3 +622,26 @@ func observeInto(p Parser, s *snapshot, hasActions bool) {
 		s.msg = p.ErrMsg()
 	}
 }
+
+// C11Reuse: the error of a parse after Reset belongs to that attempt (no stale furthest token).
+func C11Reuse(g *ref.Grammar, mk func() Parser, quote func(string) string, n1, n2, nsw int) {
+	in1 := NewInput("ina", n1, nsw)
+	in2 := NewInput("inb", n2, nsw)
+	p := start(mk, in1, true, -1)
+	p.Parse(-1)
+	for j, v := range in2.Sw {
+		p.SetSw(j, v)
+	}
+	p.Reset(in2.S)
+	ok := p.Parse(-1)
+	r := ref.Run(g, 0, in2.R, in2.Sw)
+	rt.Assume(!r.Aborted)
+	rt.ObserveBool("ok", ok)
+	rt.Assert("nil-iff-matched", ok == r.OK)
+	if ok {
+		rt.Reach("accept")
+		return
+	}
+	checkError(p, r, in2, n2, quote, "/after-reset")
+	rt.Reach("reject")
+}
